@@ -505,7 +505,16 @@ impl Loop3D {
         }
 
         // Ray cast
-        let d = (point - (self.vertices[0] + self.vertices[1]) * 0.5) * 1000.; // Should be enough...?
+        // Same direction as before (away from the midpoint of the first edge), but with a length that
+        // always leaves the loop: at least twice the distance to the farthest vertex (and never
+        // shorter than 1000, so that the absolute tolerances of `is_same_direction` and
+        // `get_intersection_pt` keep seeing the ray as they did).
+        let dir = point - (self.vertices[0] + self.vertices[1]) * 0.5;
+        let mut reach: Float = 0.;
+        for v in &self.vertices {
+            reach = reach.max((*v - point).length());
+        }
+        let d = dir * ((2. * reach).max(1000.) / dir.length());
         let ray = Segment3D::new(point, point + d);
 
         let mut n_cross = 0;
